@@ -2,7 +2,7 @@
   Refinement proof, part 1: facts about `ofJson`, the assertion blocks, the representation lemmas of
   the compressed annotation record, and the list combinators of the Spec.
 -/
-import JSV.Spec.Refine
+import JSV.Proofs.Vocab
 import JSV.Props.C11
 import JSV.Props.C12
 namespace JSV
